@@ -3,15 +3,13 @@ From JV Require Import Sem Gen Spec SpecX.
 From JV.Hand Require Import Names Text Order Iter Sys Interop.
 From JV.Proofs Require Import SpecFacts Cal Core CoreOrder Canon AtJdn InteropProofs IterCore Canon2.
 Import ListNotations.
+Require JV.Proofs.Glue_C06_core.
 Open Scope Z_scope.
 
 (* Canonical d: d is, field for field, the value Calendar::at_jdn returns for d's own calendar and day number *)
 Theorem C06_canonical_meaning : forall d, Canonical d ->
   WfCal (Date_f_calendar d) /\ in_i32 (Date_f_jdn d) /\ Calendar_at_jdn (Date_f_calendar d) (Date_f_jdn d) = Ret d.
-Proof.
-  intros d (c & j & V & H & ->). destruct (SuccPred.date_of_fields c j) as (Fc & _ & _ & Fj & _). rewrite Fc, Fj.
-  split; [exists c; auto|]. split; [exact H|apply at_jdn_ok; assumption].
-Qed.
+Proof. exact JV.Proofs.Glue_C06_core.C06_canonical_meaning_lemma. Qed.
 Print Assumptions C06_canonical_meaning.
 
 (* producers *)
@@ -25,11 +23,7 @@ Theorem C06_producers_canonical : forall c, ValidCal c ->
   (forall y m k s, in_i32 y -> in_u32 k -> Calendar_month_shape (cal_of c) y m = Ret (Some s) ->
      exists r, MonthShape_nth_date s k = Ret r /\ forall x, r = Some x -> Canonical x /\ Date_f_calendar x = cal_of c) /\
   (forall s, exists r, parse_date (cal_of c) s = Ret r /\ forall x, r = Ok x -> Canonical x /\ Date_f_calendar x = cal_of c).
-Proof.
-  intros c V. split; [intros; apply canonical_at_jdn; assumption|]. split; [intros; apply canonical_at_ymd; assumption|].
-  split; [intros; apply canonical_at_ordinal_date; assumption|]. split; [intros; apply canonical_at_unix_time; assumption|].
-  split; [apply canonical_boundary; exact V|]. split; [intros y m k s Hy Hk E; exact (canonical_nth_date c y m k V Hy Hk s E)|intros; apply canonical_parse; exact V].
-Qed.
+Proof. exact JV.Proofs.Glue_C06_core.C06_producers_canonical_lemma. Qed.
 Print Assumptions C06_producers_canonical.
 
 (* steps *)
@@ -40,9 +34,7 @@ Theorem C06_steps_preserve : forall d, Canonical d ->
   (forall c', ValidCal c' -> exists x, Date_convert_to d (cal_of c') = Ret x /\ Canonical x /\ Date_f_jdn x = Date_f_jdn d /\ Date_f_calendar x = cal_of c') /\
   (exists t1 t2, show_date d = Ret t1 /\ show_date_alt d = Ret t2 /\
      parse_date (Date_f_calendar d) t1 = Ret (Ok d) /\ parse_date (Date_f_calendar d) t2 = Ret (Ok d)).
-Proof.
-  intros d C. split; [apply canonical_succ_pred; exact C|]. split; [intros c' V'; apply canonical_convert; assumption|apply canonical_reparse; exact C].
-Qed.
+Proof. exact JV.Proofs.Glue_C06_core.C06_steps_preserve_lemma. Qed.
 Print Assumptions C06_steps_preserve.
 
 (* every finite history of operations (succ, pred, convert_to, month nth_date, rebuild from y/m/d, rebuild
@@ -54,10 +46,7 @@ Print Assumptions C06_histories.
 
 (* consequently: two dates of one calendar are equal exactly when their day numbers are; ==, cmp and hash agree *)
 Theorem C06_eq_iff_jdn : forall c j j', ValidCal c -> in_i32 j -> in_i32 j' -> (date_of c j = date_of c j' <-> j = j').
-Proof.
-  intros c j j' V H H'. split; [intros E|intros ->; reflexivity].
-  apply (f_equal Date_f_jdn) in E. destruct (SuccPred.date_of_fields c j) as (_ & _ & _ & Fj & _). destruct (SuccPred.date_of_fields c j') as (_ & _ & _ & Fj' & _). congruence.
-Qed.
+Proof. exact JV.Proofs.Glue_C06_core.C06_eq_iff_jdn_lemma. Qed.
 Print Assumptions C06_eq_iff_jdn.
 Theorem C06_cmp_eq_hash : forall c c' j j', ValidCal c -> ValidCal c' -> in_i32 j -> in_i32 j' ->
   (date_eq (date_of c j) (date_of c' j') = true <-> date_cmp (date_of c j) (date_of c' j') = Eq) /\
@@ -80,10 +69,7 @@ Theorem C06_other_producers : forall c, ValidCal c ->
      exists d, from_foreign f = Ret d /\ Canonical d /\ Date_f_calendar d = cal_of CG) /\
   (forall j x, day_or_none c j = Some x -> Canonical x /\ Date_f_jdn x = j /\ Date_f_calendar x = cal_of c) /\
   (forall y m, 0 < month_count c y (Month_discr m) -> Forall (fun x => Canonical x /\ Date_f_calendar x = cal_of c) (dates_list c y m)).
-Proof.
-  intros c V. split; [intros; apply canonical_at_system_time; assumption|]. split; [intros; eapply canonical_from_foreign; eassumption|].
-  split; [intros j x; apply canonical_day_or_none; exact V|intros y m; apply canonical_dates_list; exact V].
-Qed.
+Proof. exact JV.Proofs.Glue_C06_core.C06_other_producers_lemma. Qed.
 Print Assumptions C06_other_producers.
 
 (* histories over the enlarged operation set: everything of C06_histories, plus a trip through chrono::NaiveDate or
